@@ -117,7 +117,12 @@ DiagGet ==
                  (IF lastEff[c].set /\ Got = lastEff[c].v THEN "stale-result-of-earlier-lookup" ELSE "missing") \o
                  ":lookup-" \o KindOf(c) \o ":registered-on-" \o
                  (IF \A p \in missing : ~OnSelf(p, c) THEN "other-component"
-                  ELSE IF \A p \in missing : ~OnOther(p, c) THEN "itself" ELSE "itself+other-component")
+                  ELSE IF \A p \in missing : ~OnOther(p, c) THEN "itself" ELSE "itself+other-component") \o
+                 \* a missing string registered through a combiner that consumes a spec directly and another
+                 \* one through a parser (mixed dependency levels)
+                 (IF \E p \in missing : \E r \in regs : r.p = p /\ r.k \in Combs /\ g.k \cap Points # {}
+                                                         /\ Reaches(r.k, c, g)
+                  THEN ":through-mixed-level-combiner" ELSE "")
             ELSE IF extra # {} THEN
                  "LookupIsUnion:extra:lookup-" \o KindOf(c) \o
                  (IF \E p \in extra : \E r \in regs : r.p = p THEN ":registered-elsewhere" ELSE ":never-registered")
@@ -131,7 +136,8 @@ DiagGet ==
 
 DiagAdd ==
     IF ~AddShapeOK THEN "add.shape"
-    ELSE IF Ev.raised THEN "RegistrationAccepted:refused-applicable-registration:on-" \o KindOf(Ev.k)
+    ELSE IF Ev.raised THEN "RegistrationAccepted:refused-applicable-registration:on-" \o KindOf(Ev.k) \o
+                           (IF Ev.k \in Combs /\ g.k \cap Points # {} THEN ":mixed-level-combiner" ELSE "")
     ELSE "RegistrationRefused:accepted-" \o
          (IF Ev.mx <= 0 THEN "bad-budget" ELSE IF 0 \in PatsOf(Ev) THEN "empty-pattern" ELSE "not-filterable") \o
          ":on-" \o KindOf(Ev.k)
